@@ -580,6 +580,14 @@ func c13Run(t *testing.T, run *Run, sc c13Scenario) {
 			fail(sig, "response body: target sent %d bytes, client received %d bytes (err %q)", len(sent.Body), len(resp.Body), resp.BodyErr)
 			return
 		}
+		if cs.Method == "HEAD" && cs.RStatus != 204 && cs.RStatus != 304 {
+			// the answer to HEAD declares the length of the entity and carries no body: the declared
+			// length is one of the target's headers
+			if got, want := resp.First("Content-Length"), fmt.Sprint(len(sent.Body)); got != want {
+				fail("response-header-changed:content-length:head", "HEAD: the target declared Content-Length %s, the client received %q", want, got)
+				return
+			}
+		}
 		sentHdr := map[string][]string{}
 		for _, h := range sent.Hdr {
 			k := strings.ToLower(h[0])
